@@ -161,8 +161,8 @@ let () =
                if not (close m impl) then mism (Printf.sprintf "regret at %s %s: model %g, impl %g" bk et m impl);
                spec "c08_regret_is_external_sampling_estimator" (close sp impl)
                  (Printf.sprintf "infoset %s action %s: recorded %g, estimator %g" bk et impl sp);
-               spec "c08_regret_finite_and_clamped" (Float.is_finite impl && impl >= rmin) (Printf.sprintf "%g" impl)
-             | ["P"; _] -> spec "c08_regret_vector_aborts" false bk
+               spec "c09_recorded_regret_finite_and_clamped" (Float.is_finite impl && impl >= rmin) (Printf.sprintf "%g" impl)
+             | ["P"; _] -> spec "c09_regret_vector_aborts" false bk
              | _ -> ()) (split ',' regs)
          | _ -> ()) !infos);
     !fails)
